@@ -140,7 +140,7 @@ Example vanished_rolls_back :
   let ops := [Start [0] 1 [] [] []; ReplDelApi 0 0; ReplDelState 0 0; Recon 0 [] [] [] []] in
   let s := run (init 1) ops in
   forallb nofail_op ops = true /\ map obs_of (trace (init 1) ops) = [(Started, []); (EnvOk, []); (EnvOk, []); (RFailed, [])] /\
-  s_q s = [] /\ s_nodes s 0 = mkNode false false false false false.
+  s_q s = [] /\ s_nodes s 0 = mkNode false false false false false false.
 Proof. vm_compute. repeat split. Qed.
 
 (* a latched replacement that vanishes (delivered) now fails the command instead of deleting the candidates *)
@@ -183,3 +183,12 @@ Proof.
   unfold deliveries_done. simpl. intros n c Hn Hc j r Hj Hr He. inversion Hn; subst n. simpl in Hc.
   destruct Hc as [<-|[]]. simpl in *. destruct Hr as [Hr|[]]. inversion Hr; subst. simpl in He. discriminate.
 Qed.
+
+(* candidate 1 of [0;1;2] vanishes completely while the command waits, then the replacement vanishes: the
+   command is given up and the survivors 0 and 2 are unmarked, untainted and unqueued again *)
+Example vanished_candidate_rollback :
+  let ops := [Start [0; 1; 2] 1 [] [] []; ReplLaunch 0 0; CandGone 1; ReplDelApi 0 0; ReplDelState 0 0; Recon 0 [] [] [] []] in
+  let s := run (init 3) ops in
+  o_ret (snd (last (trace (init 3) ops) (snap_of (init 0), Restart, mkObs EnvOk [] (snap_of (init 0))))) = RFailed /\
+  s_q s = [] /\ s_nodes s 0 = node0 /\ s_nodes s 1 = gone_node /\ s_nodes s 2 = node0.
+Proof. vm_compute. repeat split. Qed.
